@@ -1301,6 +1301,76 @@ def _first_match(tree):
                     i = lo + 2
 
 
+FORWARD_SUBST = os.environ.get('PSA_FORWARD_SUBST', '0') == '1'
+
+
+def _single_use_next(tree):
+    """A local bound once and read once, by the statement that follows its
+    binding in the same block, is the expression it was bound to."""
+    for fn in ast.walk(tree):
+        if not isinstance(fn, (ast.FunctionDef, ast.AsyncFunctionDef)):
+            continue
+        stores, loads = {}, {}
+        for n in ast.walk(fn):
+            if isinstance(n, ast.Name):
+                d = stores if isinstance(n.ctx, (ast.Store, ast.Del)) \
+                    else loads
+                d[n.id] = d.get(n.id, 0) + 1
+            elif isinstance(n, ast.arg):
+                stores[n.arg] = stores.get(n.arg, 0) + 1
+        changed = True
+        while changed:
+            changed = False
+            for node in ast.walk(fn):
+                for fld in ('body', 'orelse', 'finalbody'):
+                    blk = getattr(node, fld, None)
+                    if not (isinstance(blk, list) and blk and isinstance(
+                            blk[0], ast.stmt)):
+                        continue
+                    for i, st in enumerate(blk[:-1]):
+                        if not (isinstance(st, ast.Assign) and len(
+                                st.targets) == 1 and isinstance(
+                                    st.targets[0], ast.Name)):
+                            continue
+                        nm = st.targets[0].id
+                        if stores.get(nm) != 1 or loads.get(nm) != 1:
+                            continue
+                        nxt = blk[i + 1]
+                        # only the header of a compound statement
+                        if isinstance(nxt, (ast.If, ast.While)):
+                            roots = [nxt.test]
+                        elif isinstance(nxt, ast.For):
+                            roots = [nxt.iter]
+                        elif isinstance(nxt, (ast.Assign, ast.Expr,
+                                              ast.Return, ast.Raise,
+                                              ast.AugAssign)):
+                            roots = [nxt]
+                        else:
+                            continue
+                        hit = [x for r in roots for x in ast.walk(r)
+                               if isinstance(x, ast.Name) and x.id == nm
+                               and isinstance(x.ctx, ast.Load)]
+                        if len(hit) != 1 or any(isinstance(
+                                x, (ast.Lambda, ast.GeneratorExp,
+                                    ast.ListComp, ast.SetComp, ast.DictComp))
+                                and any(y is hit[0] for y in ast.walk(x))
+                                for r in roots for x in ast.walk(r)):
+                            continue
+                        for r in roots:
+                            for x in ast.walk(r):
+                                for f_, v in ast.iter_fields(x):
+                                    if v is hit[0]:
+                                        setattr(x, f_, st.value)
+                                    elif isinstance(v, list):
+                                        for k, y in enumerate(v):
+                                            if y is hit[0]:
+                                                v[k] = st.value
+                        del blk[i]
+                        loads[nm] = 0
+                        changed = True
+                        break
+
+
 def _tuple_assigns(tree):
     """``a, b = x, y`` with plain names on the left, none of them read on
     the right, is ``a = x`` then ``b = y``."""
@@ -1547,6 +1617,8 @@ def normalise(tree):
     _first_match(tree)
     _tuple_assigns(tree)
     _dead_constant_stores(tree)
+    if FORWARD_SUBST:
+        _single_use_next(tree)
     _bind_loop_iterables(tree)
     _single_aliases(tree)
     _rebinding_chains(tree)
